@@ -68,6 +68,8 @@ DatasetClauses(r) ==
     <<"EveryRow", r.gotlen = Len(r.wantts) /\ Len(r.gotts) = Len(r.wantts) /\ Len(r.gotvals) = Len(r.wantvals)>>,
     <<"TimeStampIndex", Len(r.gotts) = Len(r.wantts) /\ \A k \in 1..Len(r.wantts) : r.gotts[k] = r.wantts[k]>>,
     <<"RowsInOrder", Len(r.gotvals) = Len(r.wantvals) /\ \A k \in 1..Len(r.wantvals) : r.gotvals[k] = r.wantvals[k]>>,
+    (* bit for bit the double that the decimal text in the file denotes (four 16-bit limbs per value) *)
+    <<"ExactValues", r.gotbits = r.wantbits>>,
     <<"ColumnNames", r.gotcols = r.wantcols>>
   >>
 
